@@ -148,6 +148,12 @@ class BaseExtractor:
                 if table_expression.get_child("values_clause"):
                     # (VALUES ...) AS alias, no dataset involved
                     return tables
+            # parenthesized join: FROM (tab1 AS t1 JOIN tab2 ...), alias of tab1 is inside the parenthesis
+            all_segments = [
+                seg
+                for seg in list_child_segments(first_segment, False)
+                if seg.type != "keyword"
+            ]
         subqueries = list_subqueries(segment)
         if subqueries:
             for sq in subqueries:
